@@ -5,7 +5,7 @@ import random
 
 from .. import boot  # noqa: F401
 from .. import world as W
-from ..corpus import corpus, corpus_tree, corpus_users
+from ..corpus import Session, corpus, corpus_tree, corpus_users
 from ..drive import Drive
 from ..runner import sig_of, rearm
 
@@ -50,6 +50,14 @@ async def execute(net, hyg, plan):
                 **(plan.get("server_kwargs") or {}))
     try:
         await w.start()
+        if plan.get("second_run"):
+            # this is the Server object's second life: it served a session, was closed and is started again
+            s0 = Session(net, 2121, name="first-life")
+            await s0.run([["connect"], ["login"], ["epsv"], ["data"], ["xfer", "RETR", "/f.bin"], ["quit"]])
+            s0.peer.cut("fin")
+            await asyncio.wait_for(w.server.close(), 30)
+            await net.quiesce(0.5)
+            await w.server.start(w.host, w.port)
         bd = plan.get("backend_delay")
         if bd:
             rng = random.Random(plan.get("seed", 0))
@@ -309,6 +317,11 @@ def gen_cases(tier, seed):
             for action in ("rst", "server-close"):
                 cases.append({"kind": "enum", "action": action, "stride": 3 if tier == "quick" else 1, "phase": seed % 3,
                               "plan": {"scripts": [name], "seed": seed, "server_kwargs": kw}})
+    # the second life of a Server object (start, close, start): everything holds as in the first
+    for name in ("retr_pasv", "stor_pasv", "walk") if tier == "quick" else ("retr_pasv", "stor_pasv", "walk", "mlsd", "two_transfers", "pasv_twice"):
+        for action in ("server-close", "rst"):
+            cases.append({"kind": "enum", "action": action, "stride": 3 if tier == "quick" else 1, "phase": seed % 3,
+                          "plan": {"scripts": [name], "seed": seed, "second_run": True}})
     # Server.close() long after the scripts ended: sessions already dropped by the server's own timeouts may have left
     # sockets behind that the (silent, non-reading) peers still hold
     for name in ("flood", "retr_huge_stall", "login_idle"):
